@@ -2,6 +2,7 @@
 # usage: try_seed.sh <prop> <patch.diff> [extra check args]  -- apply to /repo, run the check, undo straight afterwards
 P=$1; PATCH=$(realpath "$2"); shift; shift
 git -C /repo apply "$PATCH" || { echo "PATCH DOES NOT APPLY"; exit 8; }
-cd /verif && ./check $P --no-mutants "$@" 2>&1 | grep -v "^  " | tail -12; RC=$?
+mkdir -p /verif/.work/seed_evidence
+cd /verif && PYVC_EVIDENCE_DIR=/verif/.work/seed_evidence ./check $P --no-mutants "$@" 2>&1 | grep -v "^  " | tail -12; RC=$?
 git -C /repo checkout -- . 
 git -C /repo status --short | grep -v "^?? branch/"
